@@ -303,6 +303,12 @@ mech("ts-request-root-unwrap",
  "TypeScript request interfaces of root-unwrap messages keep the wrapper object although the server accepts (and the result type declares) the bare array/map",
  [("C07","tstype/unwrap/root-*/dir=req*",["wrong-type"],None),("C07","tstype/unwrap/combined/*/dir=req*",["wrong-type"],None),("C07","tstype/*/ctx=root_list/dir=req*",["wrong-type"],None)])
 
+mech("empty-null-on-timestamp-decodes-to-braces",
+ "empty_behavior=NULL on a google.protobuf.Timestamp field: MarshalJSON writes null for the empty value, UnmarshalJSON rewrites null to {} before protojson, and protojson rejects {} for a Timestamp (its JSON form is a string): the codec cannot read its own output, and the server answers 400 to the contract's form",
+ [("C04","codec/empty_null/timestamp/singular*",["canon-decode-error","decode-own-output"],None),
+  ("C05","json/empty_null/timestamp/singular*/ctx=top/dir=req*",["contract-form-rejected"],None),
+  ("C01","deliver/body/empty_null/timestamp/singular*",["handler-not-reached","client-error","request-changed","response-changed"],None)])
+
 mech("timestamp-unix-extremes",
  "UNIX_SECONDS/UNIX_MILLIS codecs mishandle pre-epoch and extreme timestamps (negative values with nanos, min/max seconds)",
  [("C04","codec/ts_unix_*@{*ts-max,*ts-min,combo*}",["roundtrip-changed","decode-own-output","canon-changed","canon-decode-error"],None),
